@@ -205,6 +205,20 @@ def _multi_job(k):
         um = [v for kk, v in out.items() if v.shape == mesh.shape]
         if not um or not (float(np.max(np.abs(um[0] - mesh))) <= 1e-12 * float(np.max(np.abs(mesh)))):
             bad.append("random:multi:unification_component")
+        # the joining component reports, per shared edge, the separation of the leading-edge and of the trailing-edge corner:
+        # zero for the generated (joined) sections, and the translation itself after one section has been moved
+        from openaerostruct.geometry.geometry_multi_join import GeomMultiJoin
+
+        moved = [m.copy() for m in secm]
+        j = int(rng.integers(0, ns))
+        t = rng.uniform(-0.5, 0.5, 3)
+        moved[j] = moved[j] + t
+        for tag, meshes in (("joined", secm), ("moved", moved)):
+            comp = GeomMultiJoin(sections=secs, dim_constr=[np.ones(3)] * (ns - 1))
+            sep = run_comp(comp, {"sec%d_join_mesh" % i: m for i, m in enumerate(meshes)}, ["section_separation"])["section_separation"].ravel()
+            want = np.concatenate([np.concatenate([meshes[i + 1][0, 0, :] - meshes[i][0, -1, :], meshes[i + 1][-1, 0, :] - meshes[i][-1, -1, :]]) for i in range(ns - 1)])
+            if sep.shape != want.shape or not (float(np.max(np.abs(sep - want))) <= 1e-12 * max(float(np.max(np.abs(mesh))), 1.0)):
+                bad.append("random:multi:join_separation_%s" % tag)
     return {"k": k, "bad": bad, "case": {"sections": ns, "nx": nx, "ny": [int(x) for x in surf["ny"]]}}
 
 
